@@ -56,7 +56,11 @@ def truncate (r : Row) (len : Nat) : M Row := do
   pure { cells := cs, wrapped := false }
 
 def resize (r : Row) (len : Nat) (cell : Cell) : Row :=
-  { cells := resizeList r.cells len cell, wrapped := false }
+  let cs := resizeList r.cells len cell
+  let cs := match cs.getLast? with
+    | some last => if last.isWide then cs.set (cs.length - 1) (last.clear last.attrs) else cs
+    | none => cs
+  { cells := cs, wrapped := false }
 
 def wrap (r : Row) (w : Bool) : Row := { r with wrapped := w }
 
@@ -179,9 +183,11 @@ def writeContentsFormatted (r : Row) (start width row : Nat) (wrapping : Bool)
         pure ({ row := r1, col := r.cols } : Pos)
       else pure ({ row := row, col := start } : Pos)
   let prevAttrs := prevAttrs.getD Attrs.default
-  let firstCell ← getM 333 r.cells start
+  let firstIsDefault := match r.cells[start]? with
+    | some firstCell => firstCell.eq defaultCell
+    | none => false
   let st0 : FmtSt :=
-    if wrapping && firstCell.eq defaultCell then
+    if wrapping && firstIsDefault then
       let da := defaultCell.attrs
       let (sg, pa) :=
         if prevAttrs != da then (da.writeEscapeCodeDiff prevAttrs, da) else ([], prevAttrs)
@@ -203,9 +209,9 @@ def diffStep (selfCols row : Nat) (wrapping : Bool) (st : FmtSt) (p : Nat × (Ce
 /-- returns `(bytes, (prev_pos, prev_attrs))` -/
 def writeContentsDiff (r prev : Row) (start width row : Nat) (wrapping prevWrapping : Bool)
     (prevPos : Pos) (prevAttrs : Attrs) : M (List Nat × Pos × Attrs) := do
-  let firstCell ← getM 341 r.cells start
-  let prevFirstCell ← getM 342 prev.cells start
   let st0 : FmtSt ←
+    match r.cells[start]?, prev.cells[start]? with
+    | some firstCell, some prevFirstCell =>
     if wrapping && !prevWrapping && firstCell.eq prevFirstCell && prevPos.row + 1 == row
         && prevPos.col ≥ r.cols - (if prevFirstCell.isWide then 1 else 0) then do
       let fa := firstCell.attrs
@@ -219,6 +225,9 @@ def writeContentsDiff (r prev : Row) (start width row : Nat) (wrapping prevWrapp
       pure ({ prevWasWide := false, prevPos := { row := row, col := 0 }, prevAttrs := pa,
               erase := none, out := out } : FmtSt)
     else
+      pure ({ prevWasWide := false, prevPos := prevPos, prevAttrs := prevAttrs, erase := none,
+              out := [] } : FmtSt)
+    | _, _ =>
       pure ({ prevWasWide := false, prevPos := prevPos, prevAttrs := prevAttrs, erase := none,
               out := [] } : FmtSt)
   let st ← (window (r.cells.zip prev.cells) start width).foldlM (diffStep r.cols row wrapping) st0
